@@ -227,6 +227,7 @@ func makeCfg0(rng *rand.Rand, i, rot int) Cfg {
 		// one case in ten: a client whose POST /o/<other id> was refused
 		// never hangs up
 		c.Hold = true
+		c.Files = true     // (one of the requests left hanging is a big download)
 		c.Junk = "several" // two refused uploads: a never-ending chunked one and a fixed-length one cut short
 		c.JunkWhere = "pre"
 		if c.Order == "i-o" && rng.IntN(2) == 0 {
@@ -614,6 +615,7 @@ type env struct {
 	nRefusedOut    int       // refused /o requests made so far in this case
 	heldShellOut   bool      // the ended shell's own /o request is still connected
 	heldBodied     int       // requests with an unasked-for, unfinished body whose client is still connected
+	heldInProgress int       // requests the program is still in the middle of (its handler waits for the client), client still connected
 
 	lrng         *rand.Rand    // the late speakers' own stream
 	lateD, lateA [][]*lateConn // pre-opened connections that speak during / after the shell, per entry of cfg.LateDuring / LateAfter
@@ -668,6 +670,11 @@ func runCfg(r *mon.Run, bin string, cfg Cfg, rng, lrng *rand.Rand, alone bool) *
 		fdir = filepath.Join(home, "files")
 		os.MkdirAll(fdir, 0o755)
 		os.WriteFile(filepath.Join(fdir, "f.txt"), []byte("file content\n"), 0o644)
+		// a download that does not fit into any socket buffer (sparse: costs no disk)
+		if f, err := os.Create(filepath.Join(fdir, "big.bin")); err == nil {
+			f.Truncate(64 << 20)
+			f.Close()
+		}
 		args = append(args, "-serve-files-from", fdir)
 	}
 	var extraEnv []string
@@ -1052,6 +1059,7 @@ func (e *env) preJunk() bool {
 		}
 		if c.Junk == "several" && c.Hold {
 			e.bodiedRequests("/i/" + id) // the last one is a duplicate input stream: refused
+			e.requestsInProgress()
 		}
 		in.Close()
 		if _, _, ok := e.notice(`Shell is gone`, mark, boundNotice*e.mult); !ok {
@@ -1600,6 +1608,48 @@ func (e *env) bodiedRequests(refusedInTarget string) {
 	}
 }
 
+// requestsInProgress: requests the program is still in the MIDDLE of when the
+// shell comes and goes - traffic in flight that is not the shell's.  The
+// handler (or net/http itself) is waiting for the client: a form posted to /c
+// (`curl -d c2=...`, documented) of which only a part has arrived, with a
+// declared length and chunked; an OPTIONS * request (answered by net/http
+// itself) with an unfinished body; a download of a big file whose client has
+// stopped reading.  Their clients stay connected and silent for the rest of
+// the run.
+func (e *env) requestsInProgress() {
+	type rq struct{ label, head string }
+	rqs := []rq{
+		{"POST /c with a form body of which 4 of 100 declared bytes were sent", "POST /c HTTP/1.1\r\nHost: fake.shell\r\nContent-Type: application/x-www-form-urlencoded\r\nContent-Length: 100\r\n\r\nc2=a"},
+		{"POST /c with an unfinished chunked form body", "POST /c HTTP/1.1\r\nHost: fake.shell\r\nContent-Type: application/x-www-form-urlencoded\r\nTransfer-Encoding: chunked\r\n\r\n4\r\nc2=a\r\n"},
+		{"OPTIONS * with 3 of 100 declared body bytes sent", "OPTIONS * HTTP/1.1\r\nHost: fake.shell\r\nContent-Length: 100\r\n\r\nabc"},
+		{"OPTIONS * with an unfinished chunked body", "OPTIONS * HTTP/1.1\r\nHost: fake.shell\r\nTransfer-Encoding: chunked\r\n\r\n3\r\nabc\r\n"},
+	}
+	if e.cfg.Files {
+		rqs = append(rqs, rq{"GET /big.bin (64 MiB) whose client never reads the answer", "GET /big.bin HTTP/1.1\r\nHost: fake.shell\r\n\r\n"})
+	}
+	for _, q := range rqs {
+		c, err := hk.Dial(e.addr, "")
+		if err != nil {
+			e.tl.add("JUNK  %s: dial failed: %v", q.label, err)
+			continue
+		}
+		e.keep(connCloser{c})
+		if _, err := io.WriteString(c, q.head); err != nil {
+			e.tl.add("JUNK  %s: %v", q.label, err)
+			continue
+		}
+		e.tl.add("JUNK  %s; the client stays connected and does nothing more", q.label)
+		e.held = append(e.held, q.label)
+		e.heldInProgress++
+		e.res.count("junk_requests_in_progress_left_hanging", 1)
+		if strings.HasPrefix(q.head, "GET /big.bin") {
+			e.res.count("junk_downloads_left_hanging", 1)
+		}
+	}
+	// let the program get into them
+	time.Sleep(150 * time.Millisecond)
+}
+
 // openRealOut opens the real shell's output request: chunked, or with a
 // declared length of 200 000 bytes of which only the tokens (a few KB) are ever
 // sent — less than 256 KiB stay outstanding, which is the range in which
@@ -1878,6 +1928,8 @@ func (e *env) afterGone(goneEnd int, dropConns func()) {
 		if !exited {
 			key := "does-not-exit-after-one-line"
 			switch {
+			case e.heldInProgress > 0:
+				key += ":request-in-progress-still-connected"
 			case e.heldBodied > 0:
 				key += ":request-with-unasked-unfinished-body-still-connected"
 			case e.heldRefusedOut > 0:
@@ -2291,6 +2343,7 @@ func Run(r *mon.Run) {
 		"progress bounds: refusal 20 s after the ready notice, exit 30 s after the one entered line, traffic 30 s; a fired bound is re-tried alone with the bound doubled, up to three times (the first two cases per bound; three in the thorough tier): " +
 			"a violation is a bound that fired under load AND again in a run alone with the bound doubled",
 		"clients hang up as soon as they are refused / their shell is gone (as curl does when its pipe ends); with hold=true (every tenth case by construction, one in six otherwise) they never hang up by themselves",
+		"requests left hanging in the middle (every tenth case, the one whose refused uploads stay connected): before the real shell arrives, clients send a form POST to /c (curl -d c2=..., documented) of which only a part arrives (declared length, chunked), an OPTIONS * request with an unfinished body (answered by net/http itself, no handler of the program sees it), and GET /big.bin (64 MiB, sparse) whose answer they never read; they stay connected and silent to the end; this is traffic in flight when the listener closes, and the program must still exit at the operator's next line (key does-not-exit-after-one-line:request-in-progress-still-connected)",
 		"the process is given 2 s (every fifth case 10 s) to exit by itself before exactly one empty line is entered",
 		"late requests on pre-opened connections: whether they are served, refused or find their connection already closed is promised neither way and only counted (late_*); " +
 			"judged are only the attached shell's traffic (during), and callback help / exit status / exit after one line (after)",
@@ -2518,6 +2571,9 @@ func Run(r *mon.Run) {
 		// (since fix 0610514 the program closes what is left when the one shell has gone: a
 		// pre-opened connection can no longer speak afterwards; the attempts are still made)
 		r.Floor("late_after_shell_attempts", full*6/10)
+		// requests left hanging in the middle (one case in ten)
+		r.Floor("junk_requests_in_progress_left_hanging", int64(n/10)*4)
+		r.Floor("junk_downloads_left_hanging", int64(n/10))
 	}
 	if r.Replaying() {
 		return
